@@ -395,6 +395,8 @@ Lemma ext_err : forall b p s rest d e p' rest' d',
 Proof. intros; cbn [ext]; repeat split; auto; congruence. Qed.
 Lemma ext_crash : forall b w r, ext b (Crash w) r.
 Proof. intros; exact I. Qed.
+Lemma ext_refl : forall r, ext [] r r.
+Proof. intros [p s rest d e|w]; cbn [ext]; auto. rewrite app_nil_r. auto. Qed.
 
 Ltac bm :=
   match goal with
@@ -754,7 +756,8 @@ Definition Dich (b : bytes) (r whole : sres) : Prop :=
   | Crash _ => True
   | SR p1 s1 rest d e =>
       ext b r whole \/
-      (rest = [] /\ d = false /\ e = nilE /\ startx p1 = false /\ exec_step p1 s1 b = whole)
+      (rest = [] /\ d = false /\ e = nilE /\ startx p1 = false /\
+       ext [] (exec_step p1 s1 b) whole)
   end.
 Lemma Dich_ext : forall b r w, ext b r w -> Dich b r w.
 Proof. intros b [] w H; [left; exact H|exact I]. Qed.
@@ -812,7 +815,7 @@ Proof.
     rewrite (W a), (W (a ++ b)). destruct a as [|a0 ar].
     + cbn [step_value app]. right. repeat split; auto.
       * eapply startx_false; [exact Hm|reflexivity].
-      * rewrite <- W. apply ex_arr; assumption.
+      * rewrite <- W, (ex_arr p s b Hm). apply ext_refl.
     + apply Dich_ext. apply step_value_ext. discriminate.
   - apply Dich_ext. unfold step_array, handle_len. rewrite El.
     destruct (vis s EArrEnd) as [s2 err]. destruct (isnil err) eqn:Ee.
@@ -829,7 +832,7 @@ Proof.
     + cbn [zlen length Z.of_nat app]. replace (0 >? 0) with false by reflexivity.
       right. repeat split; auto.
       * eapply startx_false; [exact Hm|reflexivity].
-      * apply ex_map; assumption.
+      * rewrite (ex_map p s b Hm). apply ext_refl.
     + replace (zlen (a0 :: ar) >? 0) with true by (unfold zlen; cbn [length]; lia).
       apply Dich_ext. unfold step_map, handle_len. rewrite El.
       replace (zlen ((a0 :: ar) ++ b) >? 0) with true by (unfold zlen; cbn [length app]; lia).
@@ -935,7 +938,7 @@ Proof.
   - destruct (collect_none_app p a b _ _ _ Hb E) as (-> & -> & Hb1 & E2).
     right. repeat split; auto.
     + eapply startx_false; [exact Hm|reflexivity].
-    + rewrite ex_text by exact Hm. unfold step_text. pc. rewrite E2. reflexivity.
+    + rewrite ex_text by exact Hm. unfold step_text. pc. rewrite E2. apply ext_refl.
 Qed.
 
 Lemma step_key_inv : forall p s a p1 s1 rest d,
@@ -968,5 +971,962 @@ Proof.
   - destruct (collect_none_app p a b _ _ _ Hb E) as (-> & -> & Hb1 & E2).
     right. repeat split; auto.
     + eapply startx_false; [exact Hm|reflexivity].
-    + rewrite ex_key by exact Hm. unfold step_key. pc. rewrite E2. reflexivity.
+    + rewrite ex_key by exact Hm. unfold step_key. pc. rewrite E2. apply ext_refl.
 Qed.
+
+Lemma step_float_inv : forall w p s a p1 s1 rest d,
+  leafm (maj p) -> count_of p = w -> p_err p = 0 -> ctxs (p_stack p) -> bufok p w ->
+  step_float w p s a = SR p1 s1 rest d nilE -> Inv p1.
+Proof.
+  intros w p s a p1 s1 rest d Hm Hw He Hc Hb H. unfold step_float, get_uint in H.
+  destruct (collect p a w) as [p' rest' [t|]|] eqn:E; [..|discriminate].
+  - destruct (collect_some_app p a [] _ _ _ _ Hb E) as [_ ->].
+    destruct (vis s _) as [s2 err]. destruct (isnil err) eqn:Ee.
+    + destruct (pop_state _ s2) as [[[[p2 s3] d2] e2]|] eqn:E2; [|discriminate].
+      invSR H. apply InvE_Inv, InvC_InvE. eapply pop_ready; [| | |exact E2]; auto.
+    + invSR H. discriminate.
+  - destruct (collect_none_app p a [] _ _ _ Hb E) as (-> & -> & Hb1 & _).
+    invSR H. apply leaf_Inv; [exact He|exact Hm|exact Hc|].
+    exact Hb1.
+Qed.
+
+Lemma step_float_dich : forall b w p s a,
+  (maj p = 250 /\ w = 4) \/ (maj p = 251 /\ w = 8) -> bufok p w ->
+  Dich b (step_float w p s a) (step_float w p s (a ++ b)).
+Proof.
+  intros b w p s a Hm Hb. unfold step_float at 1. unfold get_uint.
+  destruct (collect p a w) as [p' rest' [t|]|] eqn:E; [..|exact I].
+  - apply Dich_ext. destruct (collect_some_app p a b _ _ _ _ Hb E) as [E2 _].
+    unfold step_float, get_uint. rewrite E2.
+    destruct (vis s _) as [s2 err]. destruct (isnil err) eqn:Ee.
+    + destruct (pop_state _ s2) as [[[[p2 s3] d2] e2]|]; ext_solve.
+    + ext_solve.
+  - destruct (collect_none_app p a b _ _ _ Hb E) as (-> & -> & Hb1 & E2).
+    right. repeat split; auto.
+    + destruct Hm as [[Hm _]|[Hm _]]; (eapply startx_false; [exact Hm|reflexivity]).
+    + destruct Hm as [[Hm ->]|[Hm ->]].
+      * rewrite ex_f32 by exact Hm. unfold step_float, get_uint. rewrite E2. apply ext_refl.
+      * rewrite ex_f64 by exact Hm. unfold step_float, get_uint. rewrite E2. apply ext_refl.
+Qed.
+
+Lemma step_num_inv : forall neg p s a p1 s1 rest d,
+  Inv p -> maj p = mUint \/ maj p = mNeg ->
+  step_num neg p s a = SR p1 s1 rest d nilE -> Inv p1.
+Proof.
+  intros neg p s a p1 s1 rest d HI Hm H.
+  assert (Hl : leafm (maj p)) by (unfold leafm; destruct Hm; auto).
+  destruct (Inv_leaf p HI Hl) as (He & Hc & Hb).
+  rewrite count_of_num in Hb by tauto.
+  unfold step_num, get_uint in H.
+  destruct (c_minor (p_cur p) =? 24) eqn:E24.
+  - replace ((c_minor (p_cur p) =? 25) || (c_minor (p_cur p) =? 26) || (c_minor (p_cur p) =? 27))
+      with false in Hb by lia.
+    apply bufok_0 in Hb.
+    destruct a as [|v r]; [discriminate|].
+    destruct (num_event neg _ v); [|discriminate].
+    destruct (vis s e) as [s2 err].
+    apply InvE_Inv, InvC_InvE.
+    eapply after_pop_inv; [| | | |exact H|]; eauto. reflexivity.
+  - destruct ((c_minor (p_cur p) =? 25) || (c_minor (p_cur p) =? 26) || (c_minor (p_cur p) =? 27)) eqn:E25.
+    + destruct (collect p a _) as [p' rest' [t|]|] eqn:E; [..|discriminate].
+      * destruct (collect_some_app p a [] _ _ _ _ Hb E) as [_ ->].
+        apply InvE_Inv, InvC_InvE.
+        destruct (num_event neg _ (be_dec t)).
+        -- destruct (vis s e) as [s2 err].
+           eapply after_pop_inv; [| | | |exact H|]; eauto; reflexivity.
+        -- eapply after_pop_inv; [| | | |exact H|]; eauto; reflexivity.
+      * destruct (collect_none_app p a [] _ _ _ Hb E) as (-> & -> & Hb1 & _).
+        invSR H. apply leaf_Inv; [exact He|exact Hl|exact Hc|].
+        change (count_of (set_buf p (p_buf p ++ a))) with (count_of p).
+        rewrite count_of_num by tauto. rewrite E25. exact Hb1.
+    + invSR H. exact HI.
+Qed.
+
+Lemma step_num_dich : forall b neg p s a,
+  (maj p = mUint /\ neg = false) \/ (maj p = mNeg /\ neg = true) ->
+  bufok p (count_of p) -> a <> [] ->
+  Dich b (step_num neg p s a) (step_num neg p s (a ++ b)).
+Proof.
+  intros b neg p s a Hm Hb Ha.
+  rewrite count_of_num in Hb by tauto.
+  unfold step_num at 1. unfold get_uint.
+  destruct (c_minor (p_cur p) =? 24) eqn:E24.
+  - apply Dich_ext. unfold step_num. rewrite E24.
+    destruct a as [|v r]; [congruence|]. cbn [app].
+    destruct (num_event neg _ v); [|ext_solve].
+    destruct (vis s e) as [s2 err]. apply after_pop_ext.
+  - destruct ((c_minor (p_cur p) =? 25) || (c_minor (p_cur p) =? 26) || (c_minor (p_cur p) =? 27)) eqn:E25.
+    + destruct (collect p a _) as [p' rest' [t|]|] eqn:E; [..|exact I].
+      * apply Dich_ext. destruct (collect_some_app p a b _ _ _ _ Hb E) as [E2 _].
+        unfold step_num, get_uint. rewrite E24, E25, E2.
+        destruct (num_event neg _ (be_dec t)).
+        -- destruct (vis s e) as [s2 err]. apply after_pop_ext.
+        -- apply after_pop_ext.
+      * destruct (collect_none_app p a b _ _ _ Hb E) as (-> & -> & Hb1 & E2).
+        right. repeat split; auto.
+        -- destruct Hm as [[Hm _]|[Hm _]]; (eapply startx_false; [exact Hm|reflexivity]).
+        -- destruct Hm as [[Hm ->]|[Hm ->]].
+           ++ rewrite ex_uint by exact Hm. unfold step_num, get_uint. pc.
+              rewrite E24, E25, E2. apply ext_refl.
+           ++ rewrite ex_neg by exact Hm. unfold step_num, get_uint. pc.
+              rewrite E24, E25, E2. apply ext_refl.
+    + apply Dich_ext. unfold step_num. rewrite E24, E25. ext_solve.
+Qed.
+
+Lemma step_len_inv : forall p s a p1 s1 rest d,
+  Inv p -> maj p = stLen -> step_len p s a = SR p1 s1 rest d nilE -> Inv p1.
+Proof.
+  intros p s a p1 s1 rest d HI Hm H.
+  destruct HI as (He & Hs & Hb).
+  assert (HI : Inv p) by (repeat split; assumption).
+  unfold cfg in Hs. destruct (shape_len _ _ Hs Hm) as [Hl Hs2].
+  rewrite count_of_num in Hb by tauto.
+  assert (Hpop : forall q v, p_cur q = p_cur p -> p_stack q = p_stack p -> p_err q = 0 ->
+                 p_buf q = [] -> Inv (st_pop (len_push q v))).
+  { intros [cur st lc ls bf er] v A B C D. pc. subst.
+    destruct (p_stack p) as [|c2 l2]; [destruct Hl|].
+    apply InvE_Inv. repeat split; pc; auto. }
+  unfold step_len, get_uint in H.
+  destruct (c_minor (p_cur p) =? 24) eqn:E24.
+  - replace ((c_minor (p_cur p) =? 25) || (c_minor (p_cur p) =? 26) || (c_minor (p_cur p) =? 27))
+      with false in Hb by lia.
+    apply bufok_0 in Hb.
+    destruct a as [|v r]; [discriminate|]. invSR H. apply Hpop; auto.
+  - destruct ((c_minor (p_cur p) =? 25) || (c_minor (p_cur p) =? 26) || (c_minor (p_cur p) =? 27)) eqn:E25.
+    + destruct (collect p a _) as [p' rest' [t|]|] eqn:E; [..|discriminate].
+      * destruct (collect_some_app p a [] _ _ _ _ Hb E) as [_ ->].
+        destruct (be_dec t >? 9223372036854775807); invSR H; try discriminate.
+        apply Hpop; auto.
+      * destruct (collect_none_app p a [] _ _ _ Hb E) as (-> & -> & Hb1 & _).
+        invSR H. repeat split; auto.
+        change (count_of (set_buf p (p_buf p ++ a))) with (count_of p).
+        rewrite count_of_num by tauto. rewrite E25. exact Hb1.
+    + invSR H. exact HI.
+Qed.
+
+Lemma step_len_dich : forall b p s a,
+  maj p = stLen -> bufok p (count_of p) -> a <> [] ->
+  Dich b (step_len p s a) (step_len p s (a ++ b)).
+Proof.
+  intros b p s a Hm Hb Ha.
+  rewrite count_of_num in Hb by tauto.
+  unfold step_len at 1. unfold get_uint.
+  destruct (c_minor (p_cur p) =? 24) eqn:E24.
+  - apply Dich_ext. unfold step_len. rewrite E24.
+    destruct a as [|v r]; [congruence|]. cbn [app]. ext_solve.
+  - destruct ((c_minor (p_cur p) =? 25) || (c_minor (p_cur p) =? 26) || (c_minor (p_cur p) =? 27)) eqn:E25.
+    + destruct (collect p a _) as [p' rest' [t|]|] eqn:E; [..|exact I].
+      * apply Dich_ext. destruct (collect_some_app p a b _ _ _ _ Hb E) as [E2 _].
+        unfold step_len, get_uint. rewrite E24, E25, E2.
+        destruct (be_dec t >? 9223372036854775807); ext_solve.
+      * destruct (collect_none_app p a b _ _ _ Hb E) as (-> & -> & Hb1 & E2).
+        right. repeat split; auto.
+        -- eapply startx_false; [exact Hm|reflexivity].
+        -- rewrite ex_len by exact Hm. unfold step_len, get_uint. pc.
+           rewrite E24, E25, E2. apply ext_refl.
+    + apply Dich_ext. unfold step_len. rewrite E24, E25. ext_solve.
+Qed.
+
+(* ----- byte strings are delivered piecemeal ----- *)
+Definition bytes_start (p : cparser) (s : sink) : cparser * sink * Z :=
+  if c_minor (p_cur p) =? stStart then
+    let '(s1, err) := vis s (EArrStart (p_lcur p) BByte) in
+    (if isnil err then set_cur p (mkst (c_major (p_cur p)) stCont) else p, s1, err)
+  else (p, s, nilE).
+
+Definition bytes_tail (p1 : cparser) (s1 : sink) (b : bytes) : sres :=
+  let L := p_lcur p1 in
+  let done := zlen b >=? L in
+  let '(p2, L2) := if done then (p1, L) else (set_lcur p1 (p_lcur p1 - zlen b), zlen b) in
+  if L2 <? 0 then Crash 7 else
+  let '(s2, err) := emit_bytes s1 (zfirstn L2 b) in
+  if negb (isnil err) then SR p2 s2 [] false err else
+  let rest := zskipn L2 b in
+  if done then
+    let '(s3, err3) := vis s2 EArrEnd in
+    let p3 := len_pop p2 in
+    if isnil err3 then
+      match pop_state p3 s3 with
+      | Some (p4, s4, d, e) => SR p4 s4 rest d e
+      | None => Crash 93
+      end
+    else SR p3 s3 rest true err3
+  else SR p2 s2 rest false nilE.
+
+Lemma step_bytes_eq : forall p s b,
+  step_bytes p s b =
+    let '(p1, s1, err0) := bytes_start p s in
+    if negb (isnil err0) then SR p1 s1 [] false err0 else bytes_tail p1 s1 b.
+Proof. reflexivity. Qed.
+
+Lemma emit_bytes_app : forall x y s,
+  emit_bytes s (x ++ y) =
+    let '(s1, e) := emit_bytes s x in if isnil e then emit_bytes s1 y else (s1, e).
+Proof.
+  induction x as [|c x IH]; intros y s.
+  - reflexivity.
+  - cbn [app emit_bytes]. destruct (vis s _) as [s1 e]. destruct (isnil e) eqn:E.
+    + apply IH.
+    + rewrite E. reflexivity.
+Qed.
+
+(* the parser after the start of a byte string *)
+Lemma bytes_start_props : forall p s q s1 e,
+  bytes_start p s = (q, s1, e) ->
+  p_stack q = p_stack p /\ p_buf q = p_buf p /\ p_err q = p_err p /\ maj q = maj p /\
+  (e = nilE -> c_minor (p_cur q) <> stStart).
+Proof.
+  intros p s q s1 e H. unfold bytes_start in H.
+  destruct (c_minor (p_cur p) =? stStart) eqn:E.
+  - destruct (vis s _) as [s2 err]. destruct (isnil err) eqn:Ee; invSR H.
+    + repeat split; auto. intros _. pc. discriminate.
+    + repeat split; auto. intros ->. discriminate.
+  - invSR H. repeat split; auto. intros _. apply Z.eqb_neq. exact E.
+Qed.
+
+Lemma bytes_tail_inv : forall q s1 a p1 s2 rest d,
+  maj q = mBytes -> p_err q = 0 -> ctxs (p_stack q) -> p_buf q = [] ->
+  bytes_tail q s1 a = SR p1 s2 rest d nilE -> InvE p1.
+Proof.
+  intros q s1 a p1 s2 rest d Hm He Hc Hb H. unfold bytes_tail in H.
+  assert (Hleaf : forall x, InvE (set_lcur q x)).
+  { intros x. repeat split; auto. unfold cfg; pc. apply sh_leaf; auto.
+    unfold maj in Hm. rewrite Hm. unfold leafm; auto 12. }
+  destruct (zlen a >=? p_lcur q).
+  - destruct (p_lcur q <? 0); [discriminate|].
+    destruct (emit_bytes s1 _) as [s3 err]. destruct (negb (isnil err)) eqn:E1.
+    + invSR H. discriminate.
+    + destruct (vis s3 EArrEnd) as [s4 err3]. destruct (isnil err3) eqn:E3.
+      * destruct (pop_state _ s4) as [[[[p4 s5] d4] e4]|] eqn:E4; [|discriminate].
+        invSR H. apply InvC_InvE. eapply pop_ready_len; [| | |exact E4]; auto.
+      * invSR H. discriminate.
+  - destruct (zlen a <? 0); [discriminate|].
+    destruct (emit_bytes s1 _) as [s3 err]. destruct (negb (isnil err)) eqn:E1.
+    + invSR H. discriminate.
+    + invSR H. apply Hleaf.
+Qed.
+
+Lemma step_bytes_inv : forall p s a p1 s1 rest d,
+  maj p = mBytes -> p_err p = 0 -> ctxs (p_stack p) -> p_buf p = [] ->
+  step_bytes p s a = SR p1 s1 rest d nilE -> InvE p1.
+Proof.
+  intros p s a p1 s1 rest d Hm He Hc Hb H. rewrite step_bytes_eq in H.
+  destruct (bytes_start p s) as [[q s2] e0] eqn:E0.
+  destruct (bytes_start_props _ _ _ _ _ E0) as (A & B & C & D & _).
+  destruct (negb (isnil e0)) eqn:E1.
+  - invSR H. discriminate.
+  - eapply bytes_tail_inv; [| | | |exact H]; congruence.
+Qed.
+
+Lemma bytes_tail_split : forall q s1 s2 a b,
+  zlen a < p_lcur q -> emit_bytes s1 a = (s2, nilE) ->
+  ext [] (bytes_tail (set_lcur q (p_lcur q - zlen a)) s2 b) (bytes_tail q s1 (a ++ b)).
+Proof.
+  intros q s1 s2 a b Hl Em. unfold bytes_tail. pc.
+  pose proof (zlen_nonneg a) as Ha. pose proof (zlen_nonneg b) as Hb.
+  rewrite zlen_app.
+  replace (zlen a + zlen b >=? p_lcur q) with (zlen b >=? p_lcur q - zlen a) by lia.
+  destruct (zlen b >=? p_lcur q - zlen a) eqn:Ed.
+  - replace (p_lcur q - zlen a <? 0) with false by lia.
+    replace (p_lcur q <? 0) with false by lia.
+    rewrite (zfirstn_app (p_lcur q) a b), (zfirstn_all (p_lcur q) a) by lia.
+    rewrite emit_bytes_app, Em. replace (isnil nilE) with true by reflexivity.
+    rewrite (zskipn_app (p_lcur q) a b), (zskipn_all (p_lcur q) a) by lia. cbn [app].
+    rewrite len_pop_set_lcur.
+    destruct (emit_bytes s2 _) as [s3 err]. destruct (negb (isnil err)) eqn:En.
+    + boolprop. ext_solve.
+    + apply ext_refl.
+  - replace (zlen b <? 0) with false by lia.
+    replace (zlen a + zlen b <? 0) with false by lia.
+    rewrite (zfirstn_all (zlen b) b) by lia.
+    rewrite (zfirstn_all (zlen a + zlen b) (a ++ b)) by (rewrite zlen_app; lia).
+    rewrite emit_bytes_app, Em. replace (isnil nilE) with true by reflexivity.
+    rewrite (zskipn_all (zlen b) b) by lia.
+    rewrite (zskipn_all (zlen a + zlen b) (a ++ b)) by (rewrite zlen_app; lia).
+    replace (p_lcur q - zlen a - zlen b) with (p_lcur q - (zlen a + zlen b)) by lia.
+    apply ext_refl.
+Qed.
+
+Lemma bytes_tail_dich : forall b q s1 a,
+  maj q = mBytes -> c_minor (p_cur q) <> stStart ->
+  Dich b (bytes_tail q s1 a) (bytes_tail q s1 (a ++ b)).
+Proof.
+  intros b q s1 a Hm Hn. unfold bytes_tail at 1.
+  pose proof (zlen_nonneg a) as Ha. pose proof (zlen_nonneg b) as Hb.
+  destruct (zlen a >=? p_lcur q) eqn:Ed.
+  - destruct (p_lcur q <? 0) eqn:El; [exact I|].
+    apply Dich_ext. unfold bytes_tail. rewrite zlen_app.
+    replace (zlen a + zlen b >=? p_lcur q) with true by lia. rewrite El.
+    rewrite (zfirstn_app (p_lcur q) a b), (zfirstn_le0 (p_lcur q - zlen a) b), app_nil_r by lia.
+    rewrite (zskipn_app (p_lcur q) a b), (zskipn_le0 (p_lcur q - zlen a) b) by lia.
+    destruct (emit_bytes s1 _) as [s2 err]. destruct (negb (isnil err)) eqn:En.
+    + boolprop. ext_solve.
+    + destruct (vis s2 EArrEnd) as [s3 err3]. destruct (isnil err3) eqn:E3.
+      * destruct (pop_state _ s3) as [[[[p4 s4] d4] e4]|]; ext_solve.
+      * ext_solve.
+  - replace (zlen a <? 0) with false by lia.
+    rewrite (zfirstn_all (zlen a) a) by lia.
+    destruct (emit_bytes s1 a) as [s2 err] eqn:Em. destruct (negb (isnil err)) eqn:En.
+    + left. boolprop. unfold bytes_tail. rewrite zlen_app.
+      assert (W : forall n, zlen a <= n ->
+                emit_bytes s1 (zfirstn n (a ++ b)) = (s2, err)).
+      { intros n Hn'. rewrite (zfirstn_app n a b), (zfirstn_all n a) by lia.
+        rewrite emit_bytes_app, Em. apply isnil_false in En. rewrite En. reflexivity. }
+      destruct (zlen a + zlen b >=? p_lcur q).
+      * replace (p_lcur q <? 0) with false by lia. rewrite W by lia.
+        apply isnil_false in En. rewrite En. cbn [negb]. apply ext_err.
+        apply isnil_false; assumption.
+      * replace (zlen a + zlen b <? 0) with false by lia. rewrite W by lia.
+        apply isnil_false in En. rewrite En. cbn [negb]. apply ext_err.
+        apply isnil_false; assumption.
+    + boolprop. subst err. rewrite (zskipn_all (zlen a) a) by lia.
+      right. repeat split; auto.
+      * eapply startx_false; [exact Hm|reflexivity].
+      * rewrite ex_bytes by exact Hm. rewrite step_bytes_eq.
+        unfold bytes_start. pc.
+        replace (c_minor (p_cur q) =? stStart) with false by lia.
+        replace (negb (isnil nilE)) with false by reflexivity.
+        apply bytes_tail_split; [lia|exact Em].
+Qed.
+
+Lemma step_bytes_dich : forall b p s a, maj p = mBytes ->
+  Dich b (step_bytes p s a) (step_bytes p s (a ++ b)).
+Proof.
+  intros b p s a Hm. rewrite !step_bytes_eq.
+  destruct (bytes_start p s) as [[q s2] e0] eqn:E0.
+  destruct (bytes_start_props _ _ _ _ _ E0) as (A & B & C & D & F).
+  destruct (negb (isnil e0)) eqn:E1.
+  - apply Dich_ext. boolprop. ext_solve.
+  - boolprop. apply bytes_tail_dich; [congruence|auto].
+Qed.
+
+(* ---------- exec_step: invariant and dichotomy, class by class ---------- *)
+Lemma need_input : forall p (a : bytes) m, a <> [] \/ startx p = true -> maj p = m ->
+  (Z.land m (stStartX + stIndef) =? stStartX) = false -> a <> [].
+Proof.
+  intros p a m [H|H] Hm E; [assumption|].
+  rewrite (startx_false p m Hm E) in H. discriminate.
+Qed.
+
+Lemma subx_pop : forall p m, Inv p -> is_sub m -> maj p = m + stStartX ->
+  InvC (st_pop p) /\ maj (st_pop p) = m.
+Proof.
+  intros p m (He & Hs & Hb) Hm Hp. unfold cfg in Hs.
+  destruct (shape_subx _ _ m Hs Hm Hp) as (c2 & l' & E & Hc2 & Hc).
+  assert (Hbuf : p_buf p = []).
+  { apply bufok_0. rewrite <- (count_of_0 p); [assumption|..];
+      unfold is_sub in Hm; splitor; rewrite Hp, Hm; zconst; lia. }
+  destruct p as [cur st lc ls bf er]. pc. subst st. pc.
+  split; [|exact Hc2]. repeat split; auto.
+Qed.
+
+(* containers *)
+Lemma cl_value_inv : forall p s a p1 s1 rest d,
+  Inv p -> maj p = stValue -> exec_step p s a = SR p1 s1 rest d nilE -> Inv p1.
+Proof.
+  intros p s a p1 s1 rest d HI Hm H. rewrite ex_value in H by exact Hm.
+  apply InvE_Inv. eapply step_value_inv; [|exact H|reflexivity]. apply Inv_ctx; auto.
+Qed.
+Lemma cl_value_dich : forall p s a b, maj p = stValue -> a <> [] ->
+  Dich b (exec_step p s a) (exec_step p s (a ++ b)).
+Proof.
+  intros p s a b Hm Ha. rewrite !ex_value by exact Hm. apply Dich_ext, step_value_ext, Ha.
+Qed.
+
+Lemma sub_not_value : forall m, is_sub m -> m <> stValue.
+Proof. intros m H; unfold is_sub in H; splitor; subst; discriminate. Qed.
+
+Lemma cl_sub_inv : forall p s a p1 s1 rest d,
+  Inv p -> is_sub (maj p) -> exec_step p s a = SR p1 s1 rest d nilE -> Inv p1.
+Proof.
+  intros p s a p1 s1 rest d HI Hm H.
+  assert (HC : InvC p) by (apply Inv_ctx; auto).
+  pose proof (sub_not_value _ Hm) as Hn.
+  apply InvE_Inv. unfold is_sub in Hm. destruct Hm as [Hm|[Hm|[Hm|Hm]]].
+  - rewrite ex_arr in H by exact Hm. eapply step_array_inv; eauto.
+  - rewrite ex_map in H by exact Hm. eapply step_map_inv; eauto.
+  - rewrite ex_arri in H by exact Hm. eapply indef_body_inv; eauto.
+  - rewrite ex_mapi in H by exact Hm. eapply indef_body_inv; eauto.
+Qed.
+Lemma cl_sub_dich : forall p s a b, is_sub (maj p) -> a <> [] -> b <> [] ->
+  Dich b (exec_step p s a) (exec_step p s (a ++ b)).
+Proof.
+  intros p s a b Hm Ha Hb. unfold is_sub in Hm. destruct Hm as [Hm|[Hm|[Hm|Hm]]].
+  - rewrite !ex_arr by exact Hm. apply step_array_dich; auto.
+  - rewrite !ex_map by exact Hm. apply step_map_dich; auto.
+  - rewrite !ex_arri by exact Hm. apply Dich_ext, indef_body_ext, Ha.
+  - rewrite !ex_mapi by exact Hm. apply Dich_ext, indef_body_ext, Ha.
+Qed.
+
+Lemma cl_subx_inv : forall p s a m p1 s1 rest d,
+  Inv p -> is_sub m -> maj p = m + stStartX ->
+  exec_step p s a = SR p1 s1 rest d nilE -> Inv p1.
+Proof.
+  intros p s a m p1 s1 rest d HI Hm Hp H.
+  destruct (subx_pop p m HI Hm Hp) as [HC Hq].
+  assert (Hn : maj (st_pop p) <> stValue) by (rewrite Hq; apply sub_not_value; exact Hm).
+  apply InvE_Inv. unfold is_sub in Hm. destruct Hm as [Hm|[Hm|[Hm|Hm]]]; subst m.
+  - rewrite ex_arrx in H by exact Hp.
+    destruct (vis s _) as [s2 err]. destruct (isnil err) eqn:Ee.
+    + eapply step_array_inv; eauto.
+    + invSR H. discriminate.
+  - rewrite ex_mapx in H by exact Hp.
+    destruct (vis s _) as [s2 err]. destruct (isnil err) eqn:Ee.
+    + eapply step_map_inv; eauto.
+    + invSR H. discriminate.
+  - rewrite ex_arrxi in H by (rewrite Hp; reflexivity).
+    destruct (vis s _) as [s2 err]. destruct (isnil err) eqn:Ee.
+    + eapply indef_body_inv; eauto.
+    + invSR H. discriminate.
+  - rewrite ex_mapxi in H by (rewrite Hp; reflexivity).
+    destruct (vis s _) as [s2 err]. destruct (isnil err) eqn:Ee.
+    + eapply indef_body_inv; eauto.
+    + invSR H. discriminate.
+Qed.
+
+Lemma cl_subx_dich : forall p s a b m,
+  Inv p -> is_sub m -> maj p = m + stStartX -> a <> [] \/ startx p = true -> b <> [] ->
+  Dich b (exec_step p s a) (exec_step p s (a ++ b)).
+Proof.
+  intros p s a b m HI Hm Hp Ha Hb.
+  destruct (subx_pop p m HI Hm Hp) as [HC Hq].
+  unfold is_sub in Hm. destruct Hm as [Hm|[Hm|[Hm|Hm]]]; subst m.
+  - rewrite !ex_arrx by exact Hp.
+    destruct (vis s _) as [s2 err]. destruct (isnil err) eqn:Ee.
+    + apply step_array_dich; auto.
+    + apply Dich_ext. ext_solve.
+  - rewrite !ex_mapx by exact Hp.
+    destruct (vis s _) as [s2 err]. destruct (isnil err) eqn:Ee.
+    + apply step_map_dich; auto.
+    + apply Dich_ext. ext_solve.
+  - assert (Ha' : a <> []) by (eapply need_input; [exact Ha|exact Hp|reflexivity]).
+    rewrite !ex_arrxi by (rewrite Hp; reflexivity).
+    destruct (vis s _) as [s2 err]. destruct (isnil err) eqn:Ee.
+    + apply Dich_ext, indef_body_ext, Ha'.
+    + apply Dich_ext. ext_solve.
+  - assert (Ha' : a <> []) by (eapply need_input; [exact Ha|exact Hp|reflexivity]).
+    rewrite !ex_mapxi by (rewrite Hp; reflexivity).
+    destruct (vis s _) as [s2 err]. destruct (isnil err) eqn:Ee.
+    + apply Dich_ext, indef_body_ext, Ha'.
+    + apply Dich_ext. ext_solve.
+Qed.
+
+(* token states *)
+Lemma clear_maj : forall p m, maj p = m + stStartX -> maj (clear_startx p) = m.
+Proof. intros p m H. unfold maj in *. pc. lia. Qed.
+
+Lemma zlen_eqb_nil : forall (a : bytes), a <> [] -> (zlen a =? 0) = false.
+Proof. intros a H. pose proof (zlen_pos a H). lia. Qed.
+Lemma app_nonnil : forall (a b : bytes), a <> [] -> a ++ b <> [].
+Proof. intros [|x a] b H; [congruence|discriminate]. Qed.
+
+Lemma leaf_buf_nil : forall p, bufok p (count_of p) ->
+  maj p = mBytes \/ maj p = mBytes + stStartX \/ maj p = mText + stStartX \/
+  maj p = stKey + stStartX \/ maj p = stElem -> p_buf p = [].
+Proof.
+  intros p Hb Hm. apply bufok_0. rewrite <- (count_of_0 p); [assumption|..];
+    splitor; rewrite Hm; zconst; lia.
+Qed.
+
+Lemma cl_leaf_inv : forall p s a p1 s1 rest d,
+  Inv p -> leafm (maj p) -> exec_step p s a = SR p1 s1 rest d nilE -> Inv p1.
+Proof.
+  intros p s a p1 s1 rest d HI Hl H.
+  destruct (Inv_leaf p HI Hl) as (He & Hc & Hb).
+  unfold leafm in Hl.
+  destruct Hl as [Hm|[Hm|[Hm|[Hm|[Hm|[Hm|[Hm|[Hm|[Hm|[Hm|Hm]]]]]]]]]].
+  - rewrite ex_uint in H by exact Hm. eapply step_num_inv; eauto.
+  - rewrite ex_neg in H by exact Hm. eapply step_num_inv; eauto.
+  - rewrite ex_f32 in H by exact Hm. rewrite count_of_f32 in Hb by exact Hm.
+    eapply step_float_inv; [| | | | |exact H]; auto.
+    + unfold leafm; auto 12.
+    + apply count_of_f32; exact Hm.
+  - rewrite ex_f64 in H by exact Hm. rewrite count_of_f64 in Hb by exact Hm.
+    eapply step_float_inv; [| | | | |exact H]; auto.
+    + unfold leafm; auto 12.
+    + apply count_of_f64; exact Hm.
+  - rewrite ex_bytes in H by exact Hm. apply InvE_Inv.
+    eapply step_bytes_inv; [| | | |exact H]; auto. apply leaf_buf_nil; auto.
+  - rewrite ex_text in H by exact Hm. rewrite count_of_text in Hb by exact Hm.
+    eapply step_text_inv; [| | | |exact H]; auto.
+  - (* bytes, fresh *)
+    assert (Hbuf : p_buf p = []) by (apply leaf_buf_nil; auto).
+    rewrite ex_bytesx in H by exact Hm.
+    destruct (p_lcur p =? 0).
+    + destruct (vis s _) as [s2 err]. destruct (isnil err) eqn:Ee; [|invSR H; discriminate].
+      destruct (vis s2 _) as [s3 err2]. cbv zeta in H.
+      destruct (isnil err2) eqn:Ee2; [|invSR H; discriminate].
+      destruct (pop_state _ s3) as [[[[p2 s4] d2] e2]|] eqn:E2; [|discriminate].
+      invSR H. apply InvE_Inv, InvC_InvE. eapply pop_ready_len; [| | |exact E2]; auto.
+    + pose proof (clear_maj p mBytes Hm) as Hm'. cbv zeta in H.
+      destruct (zlen a =? 0).
+      * invSR H. apply leaf_Inv; auto.
+        -- rewrite Hm'. unfold leafm; auto 12.
+        -- left. exact Hbuf.
+      * apply InvE_Inv. eapply step_bytes_inv; [| | | |exact H]; auto.
+  - (* text, fresh *)
+    assert (Hbuf : p_buf p = []) by (apply leaf_buf_nil; auto).
+    rewrite ex_textx in H by exact Hm.
+    destruct (p_lcur p =? 0).
+    + cbv zeta in H.
+      destruct (vis s _) as [s2 err]. destruct (isnil err) eqn:Ee; [|invSR H; discriminate].
+      destruct (pop_state _ s2) as [[[[p2 s4] d2] e2]|] eqn:E2; [|discriminate].
+      invSR H. apply InvE_Inv, InvC_InvE. eapply pop_ready_len; [| | |exact E2]; auto.
+    + pose proof (clear_maj p mText Hm) as Hm'. cbv zeta in H.
+      destruct (zlen a =? 0).
+      * invSR H. apply leaf_Inv; auto.
+        -- rewrite Hm'. unfold leafm; auto 12.
+        -- left. exact Hbuf.
+      * eapply step_text_inv; [| | | |exact H]; auto. left. exact Hbuf.
+  - rewrite ex_key in H by exact Hm. rewrite count_of_key in Hb by exact Hm.
+    eapply step_key_inv; [| | | |exact H]; auto.
+  - (* key, fresh *)
+    assert (Hbuf : p_buf p = []) by (apply leaf_buf_nil; auto 6).
+    rewrite ex_keyx in H by exact Hm.
+    destruct (p_lcur p =? 0).
+    + destruct (vis s _) as [s2 err]. destruct (isnil err) eqn:Ee; invSR H.
+      * apply InvE_Inv. destruct (len_pop_proj p) as (A & B & C & D).
+        repeat split; pc; try congruence.
+        unfold cfg; pc. rewrite B. apply sh_leaf; [unfold leafm; pc; auto 12|assumption].
+      * boolprop. congruence.
+    + pose proof (clear_maj p stKey Hm) as Hm'.
+      eapply step_key_inv; [| | | |exact H]; auto. left. exact Hbuf.
+  - (* map element *)
+    assert (Hbuf : p_buf p = []) by (apply leaf_buf_nil; auto 6).
+    rewrite ex_elem in H by exact Hm. apply InvE_Inv.
+    eapply step_value_inv; [|exact H|reflexivity].
+    eapply InvC_st_pop; eauto. reflexivity.
+Qed.
+
+Lemma cl_leaf_dich : forall p s a b,
+  Inv p -> leafm (maj p) -> a <> [] \/ startx p = true -> b <> [] ->
+  Dich b (exec_step p s a) (exec_step p s (a ++ b)).
+Proof.
+  intros p s a b HI Hl Ha Hb0.
+  destruct (Inv_leaf p HI Hl) as (He & Hc & Hb).
+  unfold leafm in Hl.
+  destruct Hl as [Hm|[Hm|[Hm|[Hm|[Hm|[Hm|[Hm|[Hm|[Hm|[Hm|Hm]]]]]]]]]].
+  - assert (Ha' : a <> []) by (eapply need_input; [exact Ha|exact Hm|reflexivity]).
+    rewrite !ex_uint by exact Hm. apply step_num_dich; auto.
+  - assert (Ha' : a <> []) by (eapply need_input; [exact Ha|exact Hm|reflexivity]).
+    rewrite !ex_neg by exact Hm. apply step_num_dich; auto.
+  - rewrite !ex_f32 by exact Hm. rewrite count_of_f32 in Hb by exact Hm.
+    apply step_float_dich; auto.
+  - rewrite !ex_f64 by exact Hm. rewrite count_of_f64 in Hb by exact Hm.
+    apply step_float_dich; auto.
+  - rewrite !ex_bytes by exact Hm. apply step_bytes_dich; auto.
+  - rewrite !ex_text by exact Hm. rewrite count_of_text in Hb by exact Hm.
+    apply step_text_dich; auto.
+  - (* bytes, fresh *)
+    rewrite !ex_bytesx by exact Hm.
+    pose proof (clear_maj p mBytes Hm) as Hm'.
+    destruct (p_lcur p =? 0).
+    + apply Dich_ext.
+      destruct (vis s _) as [s2 err]. destruct (isnil err) eqn:Ee; [|ext_solve].
+      destruct (vis s2 _) as [s3 err2]. cbv zeta.
+      destruct (isnil err2) eqn:Ee2; [|ext_solve].
+      destruct (pop_state _ s3) as [[[[p2 s4] d2] e2]|]; ext_solve.
+    + cbv zeta. destruct a as [|a0 ar].
+      * cbn [app]. replace (zlen (@nil Z) =? 0) with true by reflexivity.
+        rewrite (zlen_eqb_nil b Hb0). right. repeat split; auto.
+        -- eapply startx_false; [exact Hm'|reflexivity].
+        -- rewrite (ex_bytes _ s b Hm'). apply ext_refl.
+      * rewrite (zlen_eqb_nil (a0 :: ar)) by discriminate.
+        rewrite (zlen_eqb_nil ((a0 :: ar) ++ b)) by discriminate.
+        apply step_bytes_dich; auto.
+  - (* text, fresh *)
+    assert (Hbuf : p_buf p = []) by (apply leaf_buf_nil; auto).
+    rewrite !ex_textx by exact Hm.
+    pose proof (clear_maj p mText Hm) as Hm'.
+    destruct (p_lcur p =? 0).
+    + apply Dich_ext. cbv zeta.
+      destruct (vis s _) as [s2 err]. destruct (isnil err) eqn:Ee; [|ext_solve].
+      destruct (pop_state _ s2) as [[[[p2 s4] d2] e2]|]; ext_solve.
+    + cbv zeta. destruct a as [|a0 ar].
+      * cbn [app]. replace (zlen (@nil Z) =? 0) with true by reflexivity.
+        rewrite (zlen_eqb_nil b Hb0). right. repeat split; auto.
+        -- eapply startx_false; [exact Hm'|reflexivity].
+        -- rewrite (ex_text _ s b Hm'). apply ext_refl.
+      * rewrite (zlen_eqb_nil (a0 :: ar)) by discriminate.
+        rewrite (zlen_eqb_nil ((a0 :: ar) ++ b)) by discriminate.
+        apply step_text_dich; auto. left. exact Hbuf.
+  - rewrite !ex_key by exact Hm. rewrite count_of_key in Hb by exact Hm.
+    apply step_key_dich; auto.
+  - (* key, fresh *)
+    assert (Hbuf : p_buf p = []) by (apply leaf_buf_nil; auto 6).
+    rewrite !ex_keyx by exact Hm.
+    pose proof (clear_maj p stKey Hm) as Hm'.
+    destruct (p_lcur p =? 0).
+    + apply Dich_ext.
+      destruct (vis s _) as [s2 err]. destruct (isnil err) eqn:Ee; ext_solve.
+    + apply step_key_dich; auto. left. exact Hbuf.
+  - assert (Ha' : a <> []) by (eapply need_input; [exact Ha|exact Hm|reflexivity]).
+    rewrite !ex_elem by exact Hm. apply Dich_ext, step_value_ext, Ha'.
+Qed.
+
+Lemma cl_len_inv : forall p s a p1 s1 rest d,
+  Inv p -> maj p = stLen -> exec_step p s a = SR p1 s1 rest d nilE -> Inv p1.
+Proof.
+  intros p s a p1 s1 rest d HI Hm H. rewrite ex_len in H by exact Hm.
+  eapply step_len_inv; eauto.
+Qed.
+Lemma cl_len_dich : forall p s a b,
+  Inv p -> maj p = stLen -> a <> [] ->
+  Dich b (exec_step p s a) (exec_step p s (a ++ b)).
+Proof.
+  intros p s a b HI Hm Ha. rewrite !ex_len by exact Hm.
+  apply step_len_dich; auto. apply HI.
+Qed.
+
+(* ---------- all states ---------- *)
+Lemma maj_cases : forall p, Inv p ->
+  maj p = stValue \/ is_sub (maj p) \/ leafm (maj p) \/
+  (exists m, is_sub m /\ maj p = m + stStartX) \/ maj p = stLen.
+Proof.
+  intros p (_ & Hs & _). unfold cfg in Hs. unfold maj. inversion Hs; subst.
+  - match goal with H : ctxs _ |- _ => apply ctxs_head in H; destruct H; auto end.
+  - auto.
+  - right; right; right; left. eexists; split; eauto.
+  - auto 6.
+Qed.
+
+Lemma exec_inv : forall p s a p1 s1 rest d,
+  Inv p -> exec_step p s a = SR p1 s1 rest d nilE -> Inv p1.
+Proof.
+  intros p s a p1 s1 rest d HI H.
+  destruct (maj_cases p HI) as [Hm|[Hm|[Hm|[[m [Hm Hp]]|Hm]]]].
+  - eapply cl_value_inv; eauto.
+  - eapply cl_sub_inv; eauto.
+  - eapply cl_leaf_inv; eauto.
+  - eapply cl_subx_inv; eauto.
+  - eapply cl_len_inv; eauto.
+Qed.
+
+Lemma exec_dich : forall p s a b,
+  Inv p -> a <> [] \/ startx p = true -> b <> [] ->
+  Dich b (exec_step p s a) (exec_step p s (a ++ b)).
+Proof.
+  intros p s a b HI Ha Hb.
+  destruct (maj_cases p HI) as [Hm|[Hm|[Hm|[[m [Hm Hp]]|Hm]]]].
+  - apply cl_value_dich; auto. eapply need_input; [exact Ha|exact Hm|reflexivity].
+  - apply cl_sub_dich; auto.
+    unfold is_sub in Hm; destruct Hm as [Hm|[Hm|[Hm|Hm]]];
+      (eapply need_input; [exact Ha|exact Hm|reflexivity]).
+  - apply cl_leaf_dich; auto.
+  - eapply cl_subx_dich; eauto.
+  - apply cl_len_dich; auto. eapply need_input; [exact Ha|exact Hm|reflexivity].
+Qed.
+
+(* ---------- merging two consecutive feeds into one ---------- *)
+(* same visitor, same error; the same parser unless an error occurred *)
+Definition sim (r r' : fres) : Prop :=
+  let '(p, s, e) := r in let '(p', s', e') := r' in
+  s = s' /\ e = e' /\ (e = nilE -> p = p').
+Lemma sim_refl : forall r, sim r r.
+Proof. intros [[p s] e]; cbn; auto. Qed.
+
+Lemma R_ext_nil : forall p1 s1 b p s x r,
+  ext [] (exec_step p1 s1 b) (exec_step p s x) -> R p1 s1 b r ->
+  exists r', R p s x r' /\ sim r r'.
+Proof.
+  intros p1 s1 b p s x r X H.
+  inversion H; subst;
+    match goal with E : exec_step p1 s1 b = _ |- _ => rewrite E in X end;
+    destruct (exec_step p s x) as [pw sw restw dw ew|w] eqn:W; cbn [ext] in X;
+    try contradiction; destruct X as (<- & <- & X).
+  - eexists; split; [eapply R_err; eauto|]. cbn. repeat split; auto. congruence.
+  - destruct (X eq_refl) as (<- & <- & ->). rewrite app_nil_r in W.
+    eexists; split; [eapply R_more; eauto|apply sim_refl].
+  - destruct (X eq_refl) as (<- & <- & ->). cbn [app] in W.
+    eexists; split; [eapply R_stut; eauto|apply sim_refl].
+  - destruct (X eq_refl) as (<- & <- & ->). cbn [app] in W.
+    eexists; split; [eapply R_stop; eauto|apply sim_refl].
+Qed.
+
+Lemma R_merge : forall p s a r, R p s a r ->
+  Inv p -> a <> [] \/ startx p = true -> forall b, b <> [] ->
+  (snd r <> nilE -> exists p1', R p s (a ++ b) (p1', snd (fst r), snd r)) /\
+  (snd r = nilE -> forall r2, R (fst (fst r)) (snd (fst r)) b r2 ->
+                   exists r2', R p s (a ++ b) r2' /\ sim r2 r2').
+Proof.
+  induction 1 as [p s a p1 s1 rest d e E Hn | p s a p1 s1 rest d r E Hr HR IH
+                 | p s a p1 s1 r E Hx HR IH | p s a p1 s1 d E Hd];
+    intros HI Ha b Hb;
+    pose proof (exec_dich p s a b HI Ha Hb) as D; rewrite E in D; cbn [Dich] in D.
+  - cbn [fst snd]. split; [intros _|congruence].
+    destruct D as [D|(_ & _ & D & _)]; [|congruence].
+    destruct (exec_step p s (a ++ b)) as [p2 s2 rest2 d2 e2|w] eqn:W; cbn [ext] in D;
+      [|contradiction].
+    destruct D as (<- & <- & _). exists p2. eapply R_err; eauto.
+  - destruct D as [D|(D & _)]; [|congruence].
+    destruct (exec_step p s (a ++ b)) as [p2 s2 rest2 d2 e2|w] eqn:W; cbn [ext] in D;
+      [|contradiction].
+    destruct D as (<- & <- & D). destruct (D eq_refl) as (<- & <- & ->).
+    assert (HI1 : Inv p1) by (eapply exec_inv; eauto).
+    destruct (IH HI1 (or_introl Hr) b Hb) as [IH1 IH2].
+    assert (Hrb : rest ++ b <> []) by (apply app_nonnil; exact Hr).
+    split.
+    + intros Hn. destruct (IH1 Hn) as [p1' R1]. exists p1'. eapply R_more; eauto.
+    + intros Hn r2 R2. destruct (IH2 Hn r2 R2) as (r2' & R2' & S2).
+      exists r2'. split; [eapply R_more; eauto|exact S2].
+  - destruct D as [D|(_ & _ & _ & D & _)]; [|congruence].
+    destruct (exec_step p s (a ++ b)) as [p2 s2 rest2 d2 e2|w] eqn:W; cbn [ext] in D;
+      [|contradiction].
+    destruct D as (<- & <- & D). destruct (D eq_refl) as (<- & <- & ->). cbn [app] in W.
+    assert (HI1 : Inv p1) by (eapply exec_inv; eauto).
+    destruct (IH HI1 (or_intror Hx) b Hb) as [IH1 IH2]. cbn [app] in IH1, IH2.
+    split.
+    + intros Hn. destruct (IH1 Hn) as [p1' R1]. exists p1'. eapply R_more; eauto.
+    + intros Hn r2 R2. destruct (IH2 Hn r2 R2) as (r2' & R2' & S2).
+      exists r2'. split; [eapply R_more; eauto|exact S2].
+  - cbn [fst snd]. split; [congruence|intros _ r2 R2].
+    destruct D as [D|(_ & _ & _ & _ & D)].
+    + destruct (exec_step p s (a ++ b)) as [p2 s2 rest2 d2 e2|w] eqn:W; cbn [ext] in D;
+        [|contradiction].
+      destruct D as (<- & <- & D). destruct (D eq_refl) as (<- & <- & ->). cbn [app] in W.
+      exists r2. split; [eapply R_more; eauto|apply sim_refl].
+    + eapply R_ext_nil; eauto.
+Qed.
+
+Lemma R_inv : forall p s a r, R p s a r -> Inv p -> snd r = nilE -> Inv (fst (fst r)).
+Proof.
+  induction 1 as [p s a p1 s1 rest d e E Hn | p s a p1 s1 rest d r E Hr HR IH
+                 | p s a p1 s1 r E Hx HR IH | p s a p1 s1 d E Hd]; intros HI Hn'.
+  - cbn in Hn'. congruence.
+  - apply IH; auto. eapply exec_inv; eauto.
+  - apply IH; auto. eapply exec_inv; eauto.
+  - cbn. eapply exec_inv; eauto.
+Qed.
+
+Lemma Feed_inv : forall p s a p1 s1, Feed p s a (p1, s1, nilE) -> Inv p -> Inv p1.
+Proof.
+  intros p s a p1 s1 [[_ H]|[_ H]] HI.
+  - inversion H; subst. exact HI.
+  - apply (R_inv _ _ _ _ H HI eq_refl).
+Qed.
+
+Lemma Feed_merge : forall p s a b p1 s1 e, Inv p -> Feed p s a (p1, s1, e) ->
+  (e <> nilE -> exists p1', Feed p s (a ++ b) (p1', s1, e)) /\
+  (e = nilE -> forall r2, Feed p1 s1 b r2 -> exists r2', Feed p s (a ++ b) r2' /\ sim r2 r2').
+Proof.
+  intros p s a b p1 s1 e HI [[Ha H]|[Ha H]].
+  - inversion H; subst. cbn [app]. split; [congruence|].
+    intros _ r2 F2. exists r2. split; [exact F2|apply sim_refl].
+  - destruct b as [|b0 br].
+    + rewrite app_nil_r. split.
+      * intros _. exists p1. right. auto.
+      * intros -> r2 [[_ ->]|[Hb _]]; [|congruence].
+        exists (p1, s1, nilE). split; [right; auto|apply sim_refl].
+    + assert (Hb : b0 :: br <> []) by discriminate.
+      destruct (R_merge _ _ _ _ H HI (or_introl Ha) _ Hb) as [M1 M2]. cbn [fst snd] in M1, M2.
+      split.
+      * intros Hn. destruct (M1 Hn) as [p1' R1]. exists p1'. right. split; auto.
+        apply app_nonnil; exact Ha.
+      * intros Hn r2 [[Hb' _]|[_ R2]]; [congruence|].
+        destruct (M2 Hn r2 R2) as (r2' & R2' & S2). exists r2'. split; [|exact S2].
+        right. split; auto. apply app_nonnil; exact Ha.
+Qed.
+
+(* ---------- sequences of writes ---------- *)
+Lemma Inv0 : Inv cparser0.
+Proof.
+  repeat split; [|left; reflexivity].
+  apply sh_ctx. apply ctxs_base. reflexivity.
+Qed.
+
+(* what a run on the whole input b reports: the visitor and the verdict *)
+Definition Whole (p : cparser) (s : sink) (b : bytes) (o : sink * Z) : Prop :=
+  exists pm sm em, Feed p s b (pm, sm, em) /\
+                   o = (sm, if isnil em then finalize pm else em).
+
+Lemma Whole_det : forall p s b o o', Whole p s b o -> Whole p s b o' -> o = o'.
+Proof.
+  intros p s b o o' (pm & sm & em & F & ->) (pm' & sm' & em' & F' & ->).
+  pose proof (Feed_det _ _ _ _ _ F F') as E. inversion E; subst. reflexivity.
+Qed.
+
+Lemma p_write_Ok : forall p s c p1 s1 err, p_write p s c = Ok (p1, s1, err) ->
+  exists p1', Feed p s c (p1', s1, err) /\ p1 = set_err p1' (if isnil err then 0 else err).
+Proof.
+  intros p s c p1 s1 err H. unfold p_write in H.
+  destruct (feed (2 * length c + 2) p s c) as [[[p1' s1'] e']| | |] eqn:E; try discriminate.
+  inversion H; subst. exists p1'. split; [|reflexivity].
+  eapply feed_sound; eauto.
+Qed.
+
+Lemma writes_whole : forall cs p s pf sf ef, Inv p ->
+  p_writes p s cs = Ok (pf, sf, ef) -> Whole p s (concat cs) (sf, ef).
+Proof.
+  induction cs as [|c cs IH]; intros p s pf sf ef HI H.
+  - cbn [p_writes concat] in *. inversion H; subst.
+    exists pf, sf, nilE. split; [left; auto|reflexivity].
+  - cbn [p_writes concat] in *.
+    destruct (p_write p s c) as [[[p1 s1] err]| | |] eqn:E; try discriminate.
+    destruct (p_write_Ok _ _ _ _ _ _ E) as (p1' & F & ->).
+    destruct (Feed_merge p s c (concat cs) p1' s1 err HI F) as [M1 M2].
+    destruct (isnil err) eqn:Ee.
+    + apply isnil_true in Ee. subst err.
+      assert (HI1 : Inv p1') by (eapply Feed_inv; eauto).
+      rewrite set_err_same in H by apply HI1.
+      destruct (IH _ _ _ _ _ HI1 H) as (pm & sm & em & F2 & O).
+      destruct (M2 eq_refl _ F2) as ([[pm' sm'] em'] & F3 & S3).
+      cbn [sim] in S3. destruct S3 as (<- & <- & S3).
+      exists pm', sm, em. split; [exact F3|]. rewrite O.
+      destruct (isnil em) eqn:Em; [|reflexivity].
+      apply isnil_true in Em. rewrite (S3 Em). reflexivity.
+    + inversion H; subst. apply isnil_false in Ee.
+      destruct (M1 Ee) as [p1'' F3].
+      exists p1'', sf, ef. split; [exact F3|].
+      apply isnil_false in Ee. rewrite Ee. reflexivity.
+Qed.
+
+Lemma parse_whole : forall p s b pf sf ef,
+  p_parse p s b = Ok (pf, sf, ef) -> Whole p s b (sf, ef).
+Proof.
+  intros p s b pf sf ef H. unfold p_parse in H.
+  destruct (feed (2 * length b + 2) p s b) as [[[p1 s1] e1]| | |] eqn:E; try discriminate.
+  inversion H; subst. exists pf, sf, e1. split; [|reflexivity].
+  eapply feed_sound; eauto.
+Qed.
+
+(* One-write split, as a statement about the model functions: when the three
+   calls return, Write(a ++ b) does what Write(a); Write(b) does. *)
+Theorem C02_cbor_write_split : forall p s a b p1 s1 p2 s2 e2 p3 s3 e3,
+  Inv p ->
+  p_write p s a = Ok (p1, s1, nilE) -> p_write p1 s1 b = Ok (p2, s2, e2) ->
+  p_write p s (a ++ b) = Ok (p3, s3, e3) ->
+  s3 = s2 /\ e3 = e2 /\ (e2 = nilE -> p3 = p2).
+Proof.
+  intros p s a b p1 s1 p2 s2 e2 p3 s3 e3 HI W1 W2 W3.
+  destruct (p_write_Ok _ _ _ _ _ _ W1) as (p1' & F1 & E1).
+  destruct (p_write_Ok _ _ _ _ _ _ W2) as (p2' & F2 & E2).
+  destruct (p_write_Ok _ _ _ _ _ _ W3) as (p3' & F3 & E3).
+  assert (HI1 : Inv p1') by (eapply Feed_inv; eauto).
+  replace (isnil nilE) with true in E1 by reflexivity.
+  rewrite set_err_same in E1 by apply HI1. subst p1.
+  destruct (Feed_merge p s a b p1' s1 nilE HI F1) as [_ M2].
+  destruct (M2 eq_refl _ F2) as ([[pm sm] em] & F4 & S4).
+  pose proof (Feed_det _ _ _ _ _ F3 F4) as E. inversion E; subst.
+  cbn [sim] in S4. destruct S4 as (<- & <- & S4).
+  repeat split; auto. intros ->. rewrite (S4 eq_refl). reflexivity.
+Qed.
+Print Assumptions C02_cbor_write_split.
+
+(* ---------- C02 ---------- *)
+(* Strongest form: whenever the two runs return at all (no panic, no fuel
+   exhaustion - see ParseSafety), they report exactly the same events and the
+   same verdict (same error class), also when the input is rejected, and for
+   every visitor failure schedule vfail. *)
+Theorem C02_cbor_chunks_strong : forall vfail cs1 cs2 r1 r2,
+  concat cs1 = concat cs2 ->
+  run_chunks vfail cs1 = Ok r1 -> run_chunks vfail cs2 = Ok r2 -> r1 = r2.
+Proof.
+  intros vfail cs1 cs2 r1 r2 Hc H1 H2. unfold run_chunks in *.
+  destruct (p_writes cparser0 (sink0 vfail) cs1) as [[[pf1 sf1] ef1]| | |] eqn:E1; try discriminate.
+  destruct (p_writes cparser0 (sink0 vfail) cs2) as [[[pf2 sf2] ef2]| | |] eqn:E2; try discriminate.
+  apply (writes_whole _ _ _ _ _ _ Inv0) in E1. apply (writes_whole _ _ _ _ _ _ Inv0) in E2.
+  rewrite Hc in E1. pose proof (Whole_det _ _ _ _ _ E1 E2) as E. inversion E; subst.
+  inversion H1; inversion H2; subst. reflexivity.
+Qed.
+Print Assumptions C02_cbor_chunks_strong.
+
+Theorem C02_cbor_entry_strong : forall vfail cs r1 r2,
+  run_parse vfail (concat cs) = Ok r1 -> run_chunks vfail cs = Ok r2 -> r1 = r2.
+Proof.
+  intros vfail cs r1 r2 H1 H2. unfold run_parse, run_chunks in *.
+  destruct (p_parse cparser0 (sink0 vfail) (concat cs)) as [[[pf1 sf1] ef1]| | |] eqn:E1; try discriminate.
+  destruct (p_writes cparser0 (sink0 vfail) cs) as [[[pf2 sf2] ef2]| | |] eqn:E2; try discriminate.
+  apply parse_whole in E1. apply (writes_whole _ _ _ _ _ _ Inv0) in E2.
+  pose proof (Whole_det _ _ _ _ _ E1 E2) as E. inversion E; subst.
+  inversion H1; inversion H2; subst. reflexivity.
+Qed.
+Print Assumptions C02_cbor_entry_strong.
+
+(* The observation of the task statement. *)
+Definition same_obs (r1 r2 : res (list event * Z)) : Prop :=
+  match r1, r2 with
+  | Ok (ev1, e1), Ok (ev2, e2) =>
+      (e1 = nilE /\ e2 = nilE /\ ev1 = ev2) \/ (e1 <> nilE /\ e2 <> nilE)
+  | _, _ => False
+  end.
+(* stronger: identical events and identical verdict *)
+Definition same_obs_strong (r1 r2 : res (list event * Z)) : Prop :=
+  match r1, r2 with
+  | Ok o1, Ok o2 => o1 = o2
+  | _, _ => False
+  end.
+Lemma same_obs_strong_weaken : forall r1 r2, same_obs_strong r1 r2 -> same_obs r1 r2.
+Proof.
+  intros [[ev1 e1]| | |] [[ev2 e2]| | |] H; cbn in *; try contradiction.
+  inversion H; subst. destruct (Z.eq_dec e2 nilE); auto.
+Qed.
+
+Theorem C02_cbor_chunks_ok : forall cs1 cs2 r1 r2,
+  concat cs1 = concat cs2 ->
+  run_chunks None cs1 = Ok r1 -> run_chunks None cs2 = Ok r2 ->
+  same_obs (run_chunks None cs1) (run_chunks None cs2).
+Proof.
+  intros cs1 cs2 r1 r2 Hc H1 H2. apply same_obs_strong_weaken.
+  rewrite H1, H2. cbn. eapply C02_cbor_chunks_strong; eauto.
+Qed.
+Print Assumptions C02_cbor_chunks_ok.
+
+Theorem C02_cbor_entry_ok : forall cs r1 r2,
+  run_parse None (concat cs) = Ok r1 -> run_chunks None cs = Ok r2 ->
+  same_obs (run_parse None (concat cs)) (run_chunks None cs).
+Proof.
+  intros cs r1 r2 H1 H2. apply same_obs_strong_weaken.
+  rewrite H1, H2. cbn. eapply C02_cbor_entry_strong; eauto.
+Qed.
+Print Assumptions C02_cbor_entry_ok.
+
+(* The unconditional statements, given that the model always returns on byte
+   inputs (C03_cbor_chunks_total / C03_cbor_parse_total of Cbor/ParseSafety.v
+   have exactly the shape of the two hypotheses). *)
+Section WithTotality.
+  Hypothesis chunks_total : forall vfail chunks, forallb all_bytes chunks = true ->
+    exists evs e, run_chunks vfail chunks = Ok (evs, e).
+  Hypothesis parse_total : forall vfail b, all_bytes b = true ->
+    exists evs e, run_parse vfail b = Ok (evs, e).
+
+  Lemma all_bytes_concat : forall cs, forallb all_bytes cs = true -> all_bytes (concat cs) = true.
+  Proof.
+    induction cs as [|c cs IH]; intros H; [reflexivity|].
+    cbn [forallb concat] in *. apply andb_true_iff in H. destruct H as [H1 H2].
+    unfold all_bytes in *. rewrite forallb_app, H1, (IH H2). reflexivity.
+  Qed.
+
+  Theorem C02_cbor_chunks_total_strong : forall vfail cs1 cs2,
+    forallb all_bytes cs1 = true -> forallb all_bytes cs2 = true ->
+    concat cs1 = concat cs2 ->
+    same_obs_strong (run_chunks vfail cs1) (run_chunks vfail cs2).
+  Proof.
+    intros vfail cs1 cs2 B1 B2 Hc.
+    destruct (chunks_total vfail cs1 B1) as (ev1 & e1 & H1).
+    destruct (chunks_total vfail cs2 B2) as (ev2 & e2 & H2).
+    rewrite H1, H2. cbn. eapply C02_cbor_chunks_strong; eauto.
+  Qed.
+
+  Theorem C02_cbor_entry_total_strong : forall vfail cs,
+    forallb all_bytes cs = true ->
+    same_obs_strong (run_parse vfail (concat cs)) (run_chunks vfail cs).
+  Proof.
+    intros vfail cs B.
+    destruct (parse_total vfail (concat cs) (all_bytes_concat cs B)) as (ev1 & e1 & H1).
+    destruct (chunks_total vfail cs B) as (ev2 & e2 & H2).
+    rewrite H1, H2. cbn. eapply C02_cbor_entry_strong; eauto.
+  Qed.
+
+  Theorem C02_cbor_chunks_total : forall cs1 cs2,
+    forallb all_bytes cs1 = true -> forallb all_bytes cs2 = true ->
+    concat cs1 = concat cs2 -> same_obs (run_chunks None cs1) (run_chunks None cs2).
+  Proof. intros; apply same_obs_strong_weaken, C02_cbor_chunks_total_strong; auto. Qed.
+
+  Theorem C02_cbor_entry_total : forall cs, forallb all_bytes cs = true ->
+    same_obs (run_parse None (concat cs)) (run_chunks None cs).
+  Proof. intros; apply same_obs_strong_weaken, C02_cbor_entry_total_strong; auto. Qed.
+End WithTotality.
+Print Assumptions C02_cbor_chunks_total_strong.
+Print Assumptions C02_cbor_entry_total_strong.
+Print Assumptions C02_cbor_chunks_total.
+Print Assumptions C02_cbor_entry_total.
